@@ -817,7 +817,7 @@ func (td *typeDecls) declare(name string, o *VOpaque, depth int) {
 	}
 	// methods the run's predicates found on this (named) type
 	type mp struct{ pred, meth, res string }
-	for _, m := range []mp{{"equalMethodInputParam", "Equal", "bool"}, {"compareMethodInputParam", "Compare", "int"}} {
+	for _, m := range []mp{{r4MethodPred("equal.equalMethodInputParam", "Equal"), "Equal", "bool"}, {r4MethodPred("compare.compareMethodInputParam", "Compare"), "Compare", "int"}} {
 		d, ok := run.decision("B:pred:" + m.pred + "(" + o.Origin + ",)!=nil")
 		if !ok || d.Choice != 0 {
 			continue
@@ -864,6 +864,16 @@ func notKind(o, u *VOpaque, k string) bool {
 		}
 	}
 	return false
+}
+
+// r4MethodPred: the name under which the plugin's method-lookup predicate is recorded (set per check from the repo).
+var r4Repo *Repo
+
+func r4MethodPred(key, method string) string {
+	if r4Repo != nil {
+		return methodPredicateName(r4Repo, key, method)
+	}
+	return key[strings.Index(key, ".")+1:]
 }
 
 // hashMethodResult: the result type of the Hash method that hash.hasHashMethod accepts, from the tabulation of that
@@ -1549,7 +1559,7 @@ func (td *typeDecls) basicCandidates(o, u *VOpaque) map[string]bool {
 			continue
 		}
 		for _, d := range run.Decisions {
-			if strings.HasPrefix(d.Sym, "B:pred:") && strings.Contains(d.Sym, "("+v.Origin+",)!=nil") && d.Choice == 0 {
+			if strings.HasPrefix(d.Sym, "B:pred:") && (strings.Contains(d.Sym, "("+v.Origin+",)!=nil") || strings.Contains(d.Sym, "("+v.Origin+",)#1")) && d.Choice == 0 {
 				hasMethod = true
 			}
 		}
